@@ -172,3 +172,14 @@ Fixpoint tspec_run (ns nv : N -> N) (c : wcells) (h : list acc) : wcells * list 
   | [] => (c, [])
   | a :: rest => let '(c1, o) := tspec_step ns nv c a in let '(c2, os) := tspec_run ns nv c1 rest in (c2, o :: os)
   end.
+
+(** ** the cells of a newly dispatched wavefront: everything zero except EXEC
+    (initial mask) and v0 of each lane (work-item id) — a constant, independent
+    of whatever any earlier wavefront did *)
+Definition fresh_cells (exec0 : N) (ids : N -> N) : cells := fun id =>
+  match id with
+  | CV l 0 => if l <? 64 then le_val (le_bytes 4 (ids l)) else 0
+  | CExecLo => exec0 mod 4294967296
+  | CExecHi => (exec0 / 4294967296) mod 4294967296
+  | _ => 0
+  end.
